@@ -62,6 +62,7 @@ type c09World struct {
 	spawnDone []chan error
 	closedPo  []bool
 	closedPr  []bool
+	restarting atomic.Bool // a driver restart is in progress: lifecycle events belong to the restart
 }
 
 func (w *c09World) log(kind string, a int, err error) {
@@ -79,7 +80,22 @@ type c09Actor struct {
 	w  *c09World
 }
 
-func (a *c09Actor) PreStart(*Context) error {
+func (a *c09Actor) PreStart(ctx *Context) error {
+	if a.w.restarting.Load() {
+		// second incarnation: wait until the death watch has handled the Terminated of the shutdown
+		// embedded in the restart (the old registration is gone), so that its timing is not part of
+		// the scenario
+		tr := ctx.ActorSystem().(*actorSystem).tree()
+		deadline := time.Now().Add(3 * time.Second)
+		for time.Now().Before(deadline) {
+			if _, ok := tr.nodeByName(ctx.ActorName()); !ok {
+				break
+			}
+			time.Sleep(200 * time.Microsecond)
+		}
+		a.w.log("r_pre", a.id, nil)
+		return nil
+	}
 	if a.w.preGated[a.id] {
 		select {
 		case a.w.preBegan[a.id] <- struct{}{}:
@@ -94,6 +110,11 @@ func (a *c09Actor) PreStart(*Context) error {
 func (a *c09Actor) Receive(ctx *ReceiveContext) {}
 
 func (a *c09Actor) PostStop(*Context) error {
+	if a.w.restarting.Load() {
+		a.w.log("r_postb", a.id, nil)
+		a.w.log("r_poste", a.id, nil)
+		return nil
+	}
 	a.w.log("postb", a.id, nil)
 	a.w.postBegan[a.id].Store(true)
 	if a.w.postGated[a.id] {
@@ -273,6 +294,21 @@ func c09RunScenario(t *testing.T, idx int, sc c09Scenario) c09ScOut {
 					err := pp.Shutdown(ctx)
 					w.log("ret", a, err)
 				}()
+			}
+		case "restart":
+			a := c09Int(act[1])
+			pp := w.pid(a)
+			if pp == nil || !pp.IsRunning() {
+				flag = 1
+				break
+			}
+			w.restarting.Store(true)
+			w.log("restartcall", a, nil)
+			err := pp.Restart(ctx)
+			w.log("restartret", a, err)
+			w.restarting.Store(false)
+			if err != nil {
+				flag = 1
 			}
 		case "release":
 			a := c09Int(act[1])
